@@ -110,10 +110,17 @@ def check_cases(cases: list[dict], rep: Report, known: dict) -> None:
             f0 = wire.MNum(info["model_F0"].split(" ")[1])
             q = wire.MNum(info["model_Q"].split(" ")[1]).q
             ulp = math.ulp(float(q)) if q != 0 else 5e-324
+            from fractions import Fraction as _Fr
             if common.tree_has(e, common.libm_site) and impl_v == f0.v and abs(impl_v - float(q)) <= 4 * ulp:
                 rep.known("K3", "libm-backed constructor not exact at an exactly representable result (<= 4 ulp)",
                           {"e": info["e"], "p": info["p"], "impl": repr(impl_v), "exact": str(q)})
                 rep.count("exactness", "K3")
+            elif _Fr(f0.v) != q:
+                # the model's own double run is not the exact value either: some intermediate was
+                # rounded on a path that the exact run's "representable" flag does not see (a zero
+                # test decided on a rounded value, cf. Properties/C01.lean, harness hazards): the
+                # premise of the exactness sentence is not established - not judged
+                rep.skip("exactness-premise-undecided")
             else:
                 rep.violation(f"every exact intermediate is a double but the result {impl_v!r} is not the exact value {q}", info)
         rep.sample({"e": info["e"], "p": info["p"], "impl": info["impl"], "model": info["model_F0"]})
